@@ -101,7 +101,7 @@ def obligations_for(prop, ur):
     # lemmas / proof fns in template text tagged with the property
     for i, (l, m) in enumerate(zip(g.lines, g.map)):
         if m.get("kind") == "spec" and prop in (m.get("props") or []):
-            mm = re.match(r"^\s*(?:pub\s+)?(?:broadcast\s+)?proof\s+fn\s+([A-Za-z0-9_]+)", l)
+            mm = re.match(r"^\s*(?:#\[verifier::spinoff_prover\]\s*)?(?:pub\s+)?(?:broadcast\s+)?proof\s+fn\s+([A-Za-z0-9_]+)", l)
             if mm:
                 obs.append(dict(id="%s/lemma:%s" % (ur["unit"], mm.group(1)), fn="lemma:" + mm.group(1), clause="lemma",
                                 text=l.strip(), src="units/%s.vrs:%d" % (ur["unit"], m.get("tline", 0))))
